@@ -2853,8 +2853,14 @@ impl<T: Storage> Raft<T> {
     /// Regenerates and stores the election timeout.
     pub fn reset_randomized_election_timeout(&mut self) {
         let prev_timeout = self.randomized_election_timeout;
+        #[cfg(not(tikv_raft_rs_verif))]
         let timeout =
             rand::thread_rng().gen_range(self.min_election_timeout..self.max_election_timeout);
+        #[cfg(tikv_raft_rs_verif)]
+        let timeout = crate::verif_shim::election_timeout_pick(
+            self.min_election_timeout,
+            self.max_election_timeout,
+        );
         debug!(
             self.logger,
             "reset election timeout {prev_timeout} -> {timeout} at {election_elapsed}",
@@ -2963,4 +2969,109 @@ impl<T: Storage> Raft<T> {
             pr.ins.set_cap(cap);
         }
     }
+}
+
+#[cfg(tikv_raft_rs_verif)]
+#[allow(missing_docs)]
+impl<T: Storage> Raft<T> {
+    pub fn verif_from_parts(c: &Config, store: T, logger: &Logger, prs: ProgressTracker) -> Self {
+        Raft {
+            prs,
+            msgs: Default::default(),
+            r: RaftCore {
+                id: c.id,
+                read_states: Default::default(),
+                raft_log: RaftLog::new(store, logger.clone(), c),
+                max_inflight: c.max_inflight_msgs,
+                max_msg_size: c.max_size_per_msg,
+                pending_request_snapshot: INVALID_INDEX,
+                state: StateRole::Follower,
+                promotable: false,
+                check_quorum: c.check_quorum,
+                pre_vote: c.pre_vote,
+                read_only: ReadOnly::new(c.read_only_option),
+                heartbeat_timeout: c.heartbeat_tick,
+                election_timeout: c.election_tick,
+                leader_id: Default::default(),
+                lead_transferee: None,
+                term: Default::default(),
+                election_elapsed: Default::default(),
+                pending_conf_index: Default::default(),
+                vote: Default::default(),
+                heartbeat_elapsed: Default::default(),
+                randomized_election_timeout: c.min_election_tick(),
+                min_election_timeout: c.min_election_tick(),
+                max_election_timeout: c.max_election_tick(),
+                skip_bcast_commit: c.skip_bcast_commit,
+                batch_append: c.batch_append,
+                logger: logger.clone(),
+                priority: c.priority,
+                uncommitted_state: UncommittedState {
+                    max_uncommitted_size: c.max_uncommitted_size as usize,
+                    uncommitted_size: 0,
+                    last_log_tail_index: 0,
+                },
+                max_committed_size_per_ready: c.max_committed_size_per_ready,
+                disable_proposal_forwarding: c.disable_proposal_forwarding,
+            },
+        }
+    }
+    pub fn verif_set_promotable(&mut self, p: bool) {
+        self.promotable = p;
+    }
+    pub fn verif_private(&self) -> VerifRaftPrivate {
+        VerifRaftPrivate {
+            promotable: self.promotable,
+            heartbeat_elapsed: self.heartbeat_elapsed,
+            randomized_election_timeout: self.randomized_election_timeout,
+            min_election_timeout: self.min_election_timeout,
+            max_election_timeout: self.max_election_timeout,
+            heartbeat_timeout: self.heartbeat_timeout,
+            election_timeout: self.election_timeout,
+            skip_bcast_commit: self.skip_bcast_commit,
+            batch_append: self.batch_append,
+            disable_proposal_forwarding: self.disable_proposal_forwarding,
+            max_uncommitted_size: self.uncommitted_state.max_uncommitted_size,
+            uncommitted_size: self.uncommitted_state.uncommitted_size,
+            last_log_tail_index: self.uncommitted_state.last_log_tail_index,
+            max_committed_size_per_ready: self.max_committed_size_per_ready,
+        }
+    }
+    pub fn verif_set_private(&mut self, p: &VerifRaftPrivate) {
+        self.promotable = p.promotable;
+        self.heartbeat_elapsed = p.heartbeat_elapsed;
+        self.randomized_election_timeout = p.randomized_election_timeout;
+        self.min_election_timeout = p.min_election_timeout;
+        self.max_election_timeout = p.max_election_timeout;
+        self.heartbeat_timeout = p.heartbeat_timeout;
+        self.election_timeout = p.election_timeout;
+        self.skip_bcast_commit = p.skip_bcast_commit;
+        self.batch_append = p.batch_append;
+        self.disable_proposal_forwarding = p.disable_proposal_forwarding;
+        self.uncommitted_state.max_uncommitted_size = p.max_uncommitted_size;
+        self.uncommitted_state.uncommitted_size = p.uncommitted_size;
+        self.uncommitted_state.last_log_tail_index = p.last_log_tail_index;
+        self.max_committed_size_per_ready = p.max_committed_size_per_ready;
+    }
+}
+
+/// Copy of the private fields of `RaftCore` (verification builds only).
+#[cfg(tikv_raft_rs_verif)]
+#[allow(missing_docs)]
+#[derive(Clone, Copy, Debug, PartialEq, Eq)]
+pub struct VerifRaftPrivate {
+    pub promotable: bool,
+    pub heartbeat_elapsed: usize,
+    pub randomized_election_timeout: usize,
+    pub min_election_timeout: usize,
+    pub max_election_timeout: usize,
+    pub heartbeat_timeout: usize,
+    pub election_timeout: usize,
+    pub skip_bcast_commit: bool,
+    pub batch_append: bool,
+    pub disable_proposal_forwarding: bool,
+    pub max_uncommitted_size: usize,
+    pub uncommitted_size: usize,
+    pub last_log_tail_index: u64,
+    pub max_committed_size_per_ready: u64,
 }
